@@ -394,17 +394,20 @@ func binaryType(op, lt, rt string) string {
 	return ""
 }
 
-func (b *binding) checkArgCount(fc *FuncCall, def *funcDef) {
+func (b *binding) checkArgCount(fc *FuncCall, def *funcDef) bool {
 	n := len(fc.Args)
 	if fc.Star {
 		if def.name != "count" {
 			b.issue("undefined-function", fc.Pos, true, "%s(*) specified, but %s is not an aggregate function", fc.Name, fc.Name)
+			return false
 		}
-		return
+		return true
 	}
 	if n < def.minArgs || (def.maxArgs >= 0 && n > def.maxArgs) {
 		b.issue("undefined-function", fc.Pos, true, "function %s with %d argument(s) does not exist", fc.Name, n)
+		return false
 	}
+	return true
 }
 
 func (b *binding) bindFuncCall(fc *FuncCall, sc *scope, aggOK bool) string {
@@ -445,11 +448,16 @@ func (b *binding) bindFuncCall(fc *FuncCall, sc *scope, aggOK bool) string {
 		b.issue("undefined-function", fc.Pos, true, "function %s does not exist", fc.Name)
 		return ""
 	}
-	b.checkArgCount(fc, def)
+	if !b.checkArgCount(fc, def) {
+		return ""
+	}
 	if fc.Variadic && !def.variadic {
 		b.issue("undefined-function", fc.Pos, true, "VARIADIC argument passed to non-variadic function %s", fc.Name)
 	}
-	if def.ret == nil {
+	if def.ret == nil || fc.Star {
+		if fc.Star {
+			return "int8"
+		}
 		return ""
 	}
 	return def.ret(argTypes)
@@ -462,6 +470,8 @@ func (b *binding) dmlTarget(t *TableRef, sc *scope, si *selInfo) *rte {
 	if bt, ok := baseTables[t.Name]; ok && (t.Schema == "" || t.Schema == "public") {
 		// a CTE of the same name does not shadow the target of a DML statement
 		r = &rte{alias: t.Name, cols: append([]string(nil), bt.cols...), types: append([]string(nil), bt.types...), rowType: bt.rowType}
+	} else if ht, ok := harnessTables[t.Name]; ok && b.harness && t.Schema == "" {
+		r = &rte{alias: t.Name, cols: append([]string(nil), ht.cols...), types: append([]string(nil), ht.types...)}
 	} else {
 		b.issue("undefined-table", t.Pos, true, "relation %q does not exist", t.Name)
 		r = &rte{alias: t.Name}
